@@ -11,24 +11,52 @@ S = "opfython.models.supervised.SupervisedOPF."
 
 # ------------------------------------------------------------------ Subgraph construction (assumed for now)
 
-contract("opfython.core.subgraph.Subgraph.__init__",
+def built(sg, X, Y, I, k):
+    """the first k rows have become nodes"""
+    return forall(0, k, lambda i: conj(
+        eq(sg.nodes[i].label, 0 if Y is None else Y[i]), eq(sg.nodes[i].features, X[i]),
+        ge(sg.nodes[i].idx, 0), eq(sg.nodes[i].idx, ite(I.present, I[i], i)),
+        eq(sg.nodes[i].status, STANDARD), eq(sg.nodes[i].pred, NIL),
+        eq(sg.nodes[i].relevant, IRRELEVANT), eq(sg.nodes[i].predicted_label, 0),
+        eq(sg.nodes[i].cluster_label, 0), eq(sg.nodes[i].cost, 0), eq(sg.nodes[i].density, 0),
+        eq(sg.nodes[i].n_plateaus, 0), eq(length(sg.nodes[i].adjacency), 0), eq(sg.nodes[i].root, 0)))
+
+
+def rows_ok(X, Y, I):
+    out = [("nonempty", ge(length(X), 1))]
+    if Y is not None:
+        out += [("same_len", eq(length(X), length(Y))),
+                ("labels_nonneg", forall(0, length(Y), lambda i: ge(Y[i], 0)))]
+    out += [("index_ok", implies(I.present, conj(ge(length(I.value), length(X)),
+                                                 forall(0, length(X), lambda i: ge(I[i], 0)))))]
+    return out
+
+
+SGI = "opfython.core.subgraph.Subgraph."
+
+contract(SGI + "_build",
+         params={"self": "obj:Subgraph", "X": "list[feat]", "Y": "list[int]", "I": "optlist[int]"},
+         props=["C01", "C02", "C03", "C15", "C07", "C10"],
+         requires=lambda v: rows_ok(v.X, v.Y, v.I) + [("empty", eq(length(v.self.nodes), 0))],
+         ensures=lambda v, old, result: [("n", eq(length(v.self.nodes), length(v.X))),
+                                         ("fields", built(v.self, v.X, v.Y, v.I, length(v.X)))],
+         modifies=["self.nodes", "self.n_features"],
+         loops=[LoopSpec("for", var="(i, (feature, label))", inv=lambda v, old, le_: [
+             ("k", conj(eq(length(v.self.nodes), v.loop0_k), le(v.loop0_k, length(v.X)))),
+             ("fields", built(v.self, v.X, v.Y, v.I, v.loop0_k))])])
+
+contract(SGI + "__init__",
          params={"self": "obj:Subgraph", "X": "list[feat]", "Y": "list[int]", "I": "optlist[int]", "from_file": "none"},
-         trusted=True, props=["C01", "C02", "C03", "C15"],
-         requires=lambda v: [("nonempty", ge(length(v.X), 1)), ("same_len", eq(length(v.X), length(v.Y))),
-                             ("labels_nonneg", forall(0, length(v.Y), lambda i: ge(v.Y[i], 0)))],
+         props=["C01", "C02", "C03", "C15", "C07", "C10"],
+         configs=[{}, {"Y": None}],
+         requires=lambda v: rows_ok(v.X, v.Y, v.I),
          ensures=lambda v, old, result: [
              ("n", eq(length(v.self.nodes), length(v.X))),
-             ("fields", forall(0, length(v.X), lambda i: conj(
-                 eq(v.self.nodes[i].label, v.Y[i]), eq(v.self.nodes[i].features, v.X[i]),
-                 ge(v.self.nodes[i].idx, 0),
-                 eq(v.self.nodes[i].idx, ite(v.I.present, v.I[i], i)),
-                 eq(v.self.nodes[i].status, STANDARD), eq(v.self.nodes[i].pred, NIL),
-                 eq(v.self.nodes[i].relevant, IRRELEVANT), eq(v.self.nodes[i].predicted_label, 0),
-                 eq(v.self.nodes[i].cost, 0)))),
+             ("fields", built(v.self, v.X, v.Y, v.I, length(v.X))),
              ("ord_empty", eq(length(v.self.idx_nodes), 0)),
              ("untrained", eq(v.self.trained, False)),
          ],
-         modifies=["self.nodes", "self.idx_nodes", "self.trained", "self.n_features", "self.n_nodes_"])
+         modifies=["self.nodes", "self.idx_nodes", "self.trained", "self.n_features", "self.n_nodes"])
 
 
 # ------------------------------------------------------------------ _find_prototypes (Prim)
@@ -109,28 +137,51 @@ def fit_requires(v):
     return [("nonempty", ge(length(v.X_train), 1)), ("same_len", eq(length(v.X_train), length(v.Y_train))),
             ("labels_nonneg", forall(0, length(v.Y_train), lambda i: ge(v.Y_train[i], 0))),
             ("two_classes", exists(0, length(v.Y_train), lambda x, y: ne(v.Y_train[x], v.Y_train[y]))),
+            ("index_ok", implies(v.I_train.present,
+                                 conj(ge(length(v.I_train.value), length(v.X_train)),
+                                      forall(0, length(v.X_train), lambda i: ge(v.I_train[i], 0))))),
             ("metric", metric_hyp())]
 
 
-def fit_static(v, old):
+def fit_static(v, old, semi=False):
     m, sg = v.self, v.self.subgraph
     n = length(sg.nodes)
     N = sg.nodes
-    return [
-        ("n", conj(eq(n, length(v.X_train)), ge(n, 1))),
-        ("cfg", eq(m.pre_computed_distance, old.self.pre_computed_distance)),
-        ("labels", forall(0, n, lambda x: conj(eq(N[x].label, v.Y_train[x]), ge(N[x].label, 0), ge(N[x].idx, 0)))),
+    nl = length(v.X_train)
+    if semi:
+        head = [
+            ("n", conj(eq(n, nl + length(v.X_unlabeled)), ge(nl, 1))),
+            ("cfg", eq(m.pre_computed_distance, old.self.pre_computed_distance)),
+            # labels of unlabeled / conquered samples are overwritten by the assigned label; prototypes (always
+            # labelled samples) keep their true label
+            ("labels", conj(forall(0, n, lambda x: conj(ge(N[x].label, 0), ge(N[x].idx, 0))),
+                            forall(0, n, lambda x: implies(eq(N[x].status, PROTOTYPE),
+                                                           conj(lt(x, nl), eq(N[x].label, v.Y_train[x])))))),
+        ]
+    else:
+        head = [
+            ("n", conj(eq(n, nl), ge(n, 1))),
+            ("cfg", eq(m.pre_computed_distance, old.self.pre_computed_distance)),
+            ("labels", forall(0, n, lambda x: conj(eq(N[x].label, v.Y_train[x]), ge(N[x].label, 0),
+                                                   ge(N[x].idx, 0)))),
+        ]
+    return head + [
         ("status_ok", statuses_ok(sg)),
         ("some_prototype", exists(0, n, lambda x: eq(N[x].status, PROTOTYPE))),
+        ("plabel_nonneg", forall(0, n, lambda x: ge(N[x].predicted_label, 0))),
+        ("fresh_relevance", forall(0, n, lambda x: eq(N[x].relevant, IRRELEVANT))),
+        ("features", forall(0, n, lambda x: eq(N[x].features,
+                                               ite(lt(x, nl), v.X_train[x], v.X_unlabeled[x - nl]) if semi
+                                               else v.X_train[x]))),
     ]
 
 
-def fit_init_inv(v, old, le_):
+def fit_init_inv(v, old, le_, semi=False):
     m, sg, h = v.self, v.self.subgraph, v.h
     n = length(sg.nodes)
     N = sg.nodes
     i = v.i
-    return fit_static(v, old) + [
+    return fit_static(v, old, semi) + [
         ("heap", conj(HP.inv(h), eq(h.size, n), eq(h.policy, "min"), lt(h.last, i))),
         ("done", forall(0, i, lambda x: ite(eq(N[x].status, PROTOTYPE),
                                             conj(eq(h.color[x], GRAY), eq(h.cost[x], 0), eq(N[x].pred, NIL),
@@ -141,7 +192,7 @@ def fit_init_inv(v, old, le_):
     ]
 
 
-def fit_forest(v, old):
+def fit_forest(v, old, semi=False):
     """I0-I4 of DESIGN C01 (outer competition loop)"""
     m, sg, h = v.self, v.self.subgraph, v.h
     n = length(sg.nodes)
@@ -150,7 +201,7 @@ def fit_forest(v, old):
     ordl = sg.idx_nodes
     mlen = length(ordl)
     rank = v.g_rank
-    return fit_static(v, old) + [
+    return fit_static(v, old, semi) + [
         ("heap", conj(HP.inv(h), eq(h.size, n), eq(h.policy, "min"))),
         ("I0_range", forall(0, n, lambda x: conj(le(0, D[x]), le(D[x], FLOAT_MAX),
                                                  iff(eq(col[x], WHITE), eq(D[x], FLOAT_MAX))))),
@@ -177,23 +228,23 @@ def fit_forest(v, old):
     ]
 
 
-def fit_outer_inv(v, old, le_):
+def fit_outer_inv(v, old, le_, semi=False):
     m, sg, h = v.self, v.self.subgraph, v.h
     n = length(sg.nodes)
     D, col = h.cost, h.color
-    return fit_forest(v, old) + [
+    return fit_forest(v, old, semi) + [
         ("I2_closed", forall(0, n, lambda b, q: implies(conj(eq(col[b], BLACK), ne(b, q)),
                                                        le(D[q], vmax(D[b], W(m, b, q)))))),
     ]
 
 
-def fit_inner_inv(v, old, le_):
+def fit_inner_inv(v, old, le_, semi=False):
     m, sg, h = v.self, v.self.subgraph, v.h
     n = length(sg.nodes)
     D, col = h.cost, h.color
     p, q = v.p, v.q
     ordl = sg.idx_nodes
-    return fit_forest(v, old) + [
+    return fit_forest(v, old, semi) + [
         ("p", conj(le(0, p), lt(p, n), eq(col[p], BLACK), ge(length(ordl), 1),
                    eq(ordl[length(ordl) - 1], p))),
         ("I2_closed_others", forall(0, n, lambda b, x: implies(conj(eq(col[b], BLACK), ne(b, x), ne(b, p)),
@@ -202,15 +253,21 @@ def fit_inner_inv(v, old, le_):
     ]
 
 
-def fit_ensures(v, old, result):
+def fit_ensures(v, old, result, semi=False):
     m, sg = v.self, v.self.subgraph
     n = length(sg.nodes)
     N = sg.nodes
     ordl = sg.idx_nodes
-    return [
-        ("n", eq(n, length(v.X_train))),
+    nl = length(v.X_train)
+    if semi:
+        head = [("n", eq(n, nl + length(v.X_unlabeled))),
+                ("prototypes_labelled", forall(0, n, lambda x: implies(eq(N[x].status, PROTOTYPE),
+                                                                       conj(lt(x, nl), eq(N[x].label, v.Y_train[x]))))),
+                ("unlabeled_features", forall(nl, n, lambda x: eq(N[x].features, v.X_unlabeled[x - nl])))]
+    else:
+        head = [("n", eq(n, nl)), ("labels", forall(0, n, lambda x: eq(N[x].label, v.Y_train[x])))]
+    return head + [
         ("trained", eq(sg.trained, True)),
-        ("labels", forall(0, n, lambda x: eq(N[x].label, v.Y_train[x]))),
         ("a_closure", forall(0, n, lambda p, q: implies(ne(p, q), le(N[q].cost, vmax(N[p].cost, W(m, p, q)))))),
         ("a_prototypes", conj(exists(0, n, lambda x: eq(N[x].status, PROTOTYPE)),
                               forall(0, n, lambda x: implies(eq(N[x].status, PROTOTYPE),
@@ -229,6 +286,8 @@ def fit_ensures(v, old, result):
                         forall(0, n, lambda x: exists(0, n, lambda r: eq(ordl[r], x))))),
         ("c_sorted", forall(0, n, lambda r, s: implies(lt(r, s), le(N[ordl[r]].cost, N[ordl[s]].cost)))),
         ("costs_range", forall(0, n, lambda x: conj(le(0, N[x].cost), lt(N[x].cost, FLOAT_MAX)))),
+        ("plabel_nonneg", forall(0, n, lambda x: ge(N[x].predicted_label, 0))),
+        ("fresh_relevance", forall(0, n, lambda x: eq(N[x].relevant, IRRELEVANT))),
     ]
 
 
@@ -251,3 +310,130 @@ contract(S + "fit",
          loops=[LoopSpec("for", var="i", inv=fit_init_inv),
                 LoopSpec("while", inv=fit_outer_inv),
                 LoopSpec("for", var="q", inv=fit_inner_inv)])
+
+
+# ------------------------------------------------------------------ mark_nodes / predict
+
+def preds_valid(sg):
+    n = length(sg.nodes)
+    return forall(0, n, lambda x: conj(le(NIL, sg.nodes[x].pred), lt(sg.nodes[x].pred, n)))
+
+
+contract("opfython.core.subgraph.Subgraph.mark_nodes", params={"self": "obj:Subgraph", "i": "int"},
+         props=["C03", "C17", "C09"],
+         requires=lambda v: [("i", conj(le(0, v.i), lt(v.i, length(v.self.nodes)))), ("preds", preds_valid(v.self))],
+         ensures=lambda v, old, result: [],
+         modifies=["self.nodes.relevant"],
+         loops=[LoopSpec("while", inv=lambda v, old, le_: [
+             ("i", conj(le(0, v.i), lt(v.i, length(v.self.nodes)))), ("preds", preds_valid(v.self))])])
+
+
+def WT(m, t, ps, i):
+    """arc weight between training node t and query node i, exactly as predict reads it"""
+    sg = m.subgraph
+    if isinstance(m.pre_computed_distance, bool):
+        if m.pre_computed_distance:
+            return m.pre_distances[sg.nodes[t].idx][ps.nodes[i].idx]
+        return m.distance_fn(sg.nodes[t].features, ps.nodes[i].features)
+    return ite(m.pre_computed_distance,
+               m.pre_distances[sg.nodes[t].idx][ps.nodes[i].idx],
+               m.distance_fn(sg.nodes[t].features, ps.nodes[i].features))
+
+
+def fitted(m):
+    """what predict needs from a fitted model = part of fit's postcondition"""
+    sg = m.subgraph
+    n = length(sg.nodes)
+    N, ordl = sg.nodes, sg.idx_nodes
+    return conj(
+        eq(sg.trained, True), ge(n, 1),
+        eq(length(ordl), n),
+        forall(0, n, lambda r: conj(le(0, ordl[r]), lt(ordl[r], n))),
+        forall(0, n, lambda x: exists(0, n, lambda r: eq(ordl[r], x)),
+               pats=(lambda x: [N[x].cost]) if MODE.kind == "sym" else None),
+        forall(0, n, lambda r, s: implies(lt(r, s), le(N[ordl[r]].cost, N[ordl[s]].cost))),
+        forall(0, n, lambda x: ge(N[x].predicted_label, 0)),
+        preds_valid(sg))
+
+
+def predict_requires(v):
+    # no symmetry here: the statement fixes the argument order d(t, x) and quantifies over every metric
+    return [("fitted", fitted(v.self)), ("metric", metric_hyp(symmetric=False)), ("nonempty", ge(length(v.X_val), 1)),
+            ("index_ok", implies(v.I_val.present,
+                                 conj(ge(length(v.I_val.value), length(v.X_val)),
+                                      forall(0, length(v.X_val), lambda i: ge(v.I_val[i], 0)))))]
+
+
+def optimal_for(m, ps, i, t):
+    """training node t minimises max(cost, distance to query i) over ALL training nodes"""
+    sg = m.subgraph
+    n = length(sg.nodes)
+    N = sg.nodes
+    return conj(le(0, t), lt(t, n),
+                forall(0, n, lambda u: le(vmax(N[t].cost, WT(m, t, ps, i)), vmax(N[u].cost, WT(m, u, ps, i)))))
+
+
+def predict_frame(v, old):
+    """predict changes nothing of the model but the relevance flags"""
+    m, sg, o = v.self, v.self.subgraph, old.self.subgraph
+    return []
+
+
+def predict_outer(v, old, le_):
+    m, sg, ps = v.self, v.self.subgraph, v.pred_subgraph
+    npred = length(ps.nodes)
+    return [
+        ("fitted", fitted(m)),
+        ("npred", conj(eq(npred, length(v.X_val)), eq(length(v.g_win), npred))),
+        ("done", forall(0, v.i, lambda a: conj(optimal_for(m, ps, a, v.g_win[a]),
+                                               eq(ps.nodes[a].predicted_label,
+                                                  sg.nodes[v.g_win[a]].predicted_label)))),
+        ("query_static", forall(0, npred, lambda a: conj(eq(ps.nodes[a].features, v.X_val[a]),
+                                                        ge(ps.nodes[a].idx, 0)))),
+    ]
+
+
+def predict_inner(v, old, le_):
+    m, sg, ps = v.self, v.self.subgraph, v.pred_subgraph
+    n = length(sg.nodes)
+    N, ordl = sg.nodes, sg.idx_nodes
+    i, j, t = v.i, v.j, v.g_t
+    return predict_outer(v, old, le_) + [
+        ("i", conj(le(0, i), lt(i, length(ps.nodes)))),
+        ("j", conj(le(0, j), le(j, n - 1))),
+        ("witness", conj(le(0, t), lt(t, n), eq(v.min_cost, vmax(N[t].cost, WT(m, t, ps, i))),
+                         eq(v.current_label, N[t].predicted_label))),
+        ("prefix_min", forall(0, j + 1, lambda r: le(v.min_cost, vmax(N[ordl[r]].cost, WT(m, ordl[r], ps, i))))),
+        ("conqueror", conj(le(-1, v.conqueror), lt(v.conqueror, n))),
+    ]
+
+
+def predict_ensures(v, old, result):
+    m, sg = v.self, v.self.subgraph
+    n = length(sg.nodes)
+    N = sg.nodes
+    if MODE.kind == "sym":
+        ps = v.pred_subgraph
+    else:
+        import types
+        ps = types.SimpleNamespace(nodes=[types.SimpleNamespace(
+            features=v.X_val[a], idx=(int(v.I_val[a]) if v.I_val is not None else a)) for a in range(len(v.X_val))])
+    return [
+        ("len", eq(length(result), length(v.X_val))),
+        ("argmin", forall(0, length(v.X_val),
+                          lambda a: exists(0, n, lambda t: conj(eq(result[a], N[t].predicted_label),
+                                                                optimal_for(m, ps, a, t))))),
+        ("query_is_input", forall(0, length(v.X_val), lambda a: eq(ps.nodes[a].features, v.X_val[a]))),
+    ]
+
+
+contract(S + "predict",
+         params={"self": "obj:SupervisedOPF", "X_val": "list[feat]", "I_val": "optlist[int]", "return": "list[int]"},
+         props=["C03", "C17", "C09"],
+         requires=predict_requires, ensures=predict_ensures,
+         modifies=["self.subgraph.nodes.relevant"],
+         ghost=[("after:pred_subgraph = Subgraph(X_val, I=I_val)", "g_win = [0 for _ in range(pred_subgraph.n_nodes)]"),
+                ("after:current_label = self.subgraph.nodes[k].predicted_label", "g_t = k"),
+                ("after:conqueror = l", "g_t = l"),
+                ("after:pred_subgraph.nodes[i].predicted_label = current_label", "g_win[i] = g_t")],
+         loops=[LoopSpec("for", var="i", inv=predict_outer), LoopSpec("while", inv=predict_inner)])
